@@ -307,12 +307,19 @@ theorem kinv_stepTask {s s' : St} {i p : Nat} {t : Task} (h1 : OnePlace s) (hk :
   case panicked => simp [stepTask] at hstep
   case idle =>
     simp only [stepTask] at hstep
+    split at hstep
+    · simp only [Option.some.injEq] at hstep; subst hstep
+      exact KInv_of hk rfl rfl rfl rfl (fun _ _ h => h) hk.buf (Or.inl rfl) trivial (Or.inl rfl)
     cases prog with
     | nil =>
       simp only [Option.some.injEq] at hstep; subst hstep
       exact KInv_of hk rfl rfl rfl rfl (fun _ _ h => h) hk.buf (Or.inl rfl) trivial (Or.inl rfl)
     | cons op rest =>
       cases op
+      case sweep =>
+        simp at hstep
+        split at hstep <;> (try simp at hstep) <;> subst hstep <;>
+          exact KInv_of hk rfl rfl rfl rfl (fun _ _ h => h) hk.buf (Or.inl rfl) trivial (Or.inl rfl)
       case get k =>
         simp only [Option.some.injEq] at hstep; subst hstep
         exact KInv_of hk rfl rfl rfl rfl (fun _ _ h => h) hk.buf (Or.inl rfl) trivial (Or.inl rfl)
